@@ -32,6 +32,12 @@ type LookupGen struct {
 	NumLookups int
 	// MarkSets is the number of mark glyph sets in GDEF.
 	MarkSets int
+	// MarkMode makes marks, mark filtering sets and mark-related lookup
+	// flags frequent: several hot glyphs are marks, GDEF has two or three
+	// mark glyph sets with different members, and lookup flags come from a
+	// small palette so that different lookups share a flag word while
+	// naming different sets.
+	MarkMode bool
 }
 
 func (g *LookupGen) gid() glyph.ID {
@@ -130,6 +136,22 @@ func (g *LookupGen) actions(seqLen int) []gtab.SeqLookup {
 func (g *LookupGen) flags() (gtab.LookupFlags, uint16) {
 	var f gtab.LookupFlags
 	var set uint16
+	if g.MarkMode {
+		switch g.T.Weighted(2, 3, 3, 1, 1) {
+		case 1:
+			return gtab.UseMarkFilteringSet, 0
+		case 2:
+			if g.MarkSets > 1 {
+				return gtab.UseMarkFilteringSet, uint16(1 + g.T.Draw(g.MarkSets-1))
+			}
+			return gtab.UseMarkFilteringSet, 0
+		case 3:
+			return gtab.IgnoreMarks, 0
+		case 4:
+			return gtab.LookupFlags(1+g.T.Draw(2)) << 8, 0
+		}
+		return 0, 0
+	}
 	switch g.T.Weighted(10, 3, 1, 1, 1, 1) {
 	case 1:
 		f = gtab.IgnoreMarks
@@ -507,6 +529,49 @@ func (g *LookupGen) ScriptList(nf, n int) gtab.ScriptListInfo {
 func (g *LookupGen) Gdef() *gdef.Table {
 	t := g.T
 	tab := &gdef.Table{}
+	if g.MarkMode {
+		tab.GlyphClass = classdef.Table{}
+		var marks []glyph.ID
+		for gid := 1; gid < g.N && gid < 40; gid++ {
+			switch t.Weighted(3, 3, 1, 4) {
+			case 1:
+				tab.GlyphClass[glyph.ID(gid)] = gdef.GlyphClassBase
+			case 2:
+				tab.GlyphClass[glyph.ID(gid)] = gdef.GlyphClassLigature
+			case 3:
+				tab.GlyphClass[glyph.ID(gid)] = gdef.GlyphClassMark
+				marks = append(marks, glyph.ID(gid))
+			}
+		}
+		if len(marks) == 0 {
+			tab.GlyphClass[1] = gdef.GlyphClassMark
+			marks = append(marks, 1)
+		}
+		tab.MarkAttachClass = classdef.Table{}
+		for _, m := range marks {
+			if t.Chance(2, 3) {
+				tab.MarkAttachClass[m] = uint16(t.Range(1, 2))
+			}
+		}
+		if len(tab.MarkAttachClass) == 0 {
+			tab.MarkAttachClass = nil
+		}
+		ns := t.Range(2, 3)
+		for i := 0; i < ns; i++ {
+			set := coverage.Set{}
+			for _, m := range marks {
+				if t.Chance(1, 2) {
+					set[m] = true
+				}
+			}
+			if len(set) == 0 {
+				set[marks[t.Draw(len(marks))]] = true
+			}
+			tab.MarkGlyphSets = append(tab.MarkGlyphSets, set)
+		}
+		g.MarkSets = ns
+		return tab
+	}
 	if !t.Chance(1, 8) {
 		tab.GlyphClass = classdef.Table{}
 		for gid := 1; gid < g.N && gid < 400; gid++ {
